@@ -119,8 +119,9 @@ class DistributeMapper(IdentityMapper):
                 ]))
 
         if isinstance(expr.exponent, int):
-            if isinstance(newbase, Sum):
-                return self.map_product(
+            if isinstance(newbase, Sum) and expr.exponent >= 0:
+                # 1 for exponent 0, the sum itself for exponent 1, else a product
+                return self.rec(
                         pymbolic.flattened_product(
                             expr.exponent*(newbase,)))
             else:
